@@ -38,7 +38,7 @@ EVENTS = (
     "on_insert_begin", "on_insert_end",
     "on_to_run", "on_trashable", "on_info_internal_state",
     "on_push", "on_trash", "on_get", "on_get_failed",
-    "on_write", "on_post_run",
+    "on_write", "on_write_end", "on_post_run",
     "on_send_event_time_begin", "on_send_event_time_end",
     "on_send_out_state_begin", "on_send_out_state_end",
     "on_draw", "on_potential_call", "on_lifting_call", "on_walker_built", "on_walker_sample",
@@ -74,6 +74,9 @@ HUB = Hub()
 # Collaborator proxies
 # ---------------------------------------------------------------------------------------------------------------------
 
+LOADED = {}
+
+
 class Proxy(object):
     """Transparent forwarding proxy for one constructor-injected collaborator of a mediator.
 
@@ -86,6 +89,7 @@ class Proxy(object):
     def __init__(self, target, role):
         object.__setattr__(self, "_target", target)
         object.__setattr__(self, "_role", role)
+        LOADED[role] = target     # lets a resumed process find the collaborators of an unpickled mediator
 
     def __getstate__(self):
         return (self._target, self._role)
@@ -206,7 +210,10 @@ def _io_read(target):
 def _io_write(target, output_handler, *args):
     for h in HUB.h_on_write:
         h(target, output_handler, args)
-    return target.write(output_handler, *args)
+    result = target.write(output_handler, *args)
+    for h in HUB.h_on_write_end:
+        h(target, output_handler, args)
+    return result
 
 
 def _io_post_run(target):
